@@ -14,7 +14,7 @@ use crate::verif::model::{self, Eval, GRule, RenderStyle, RuleStatus, Structural
 use crate::verif::sha;
 use crate::verif::shim::{self, Policy, RunReport};
 use crate::verif::util::{fnv64, show_bytes, Counts, Rng, J};
-use crate::verif::vsys::{Clock, Disk, Event, Expect, Op, VSys, Who, RULER_DIR};
+use crate::verif::vsys::{Clock, Disk, Event, Expect, Op, VSys, Who, ruler_dir};
 
 pub const RULES_FILE : &str = "build.rules";
 /* some workspaces spread their rules over two files, as `ruler --rules a --rules b` allows */
@@ -251,7 +251,7 @@ pub fn user_files(disk : &Disk) -> BTreeMap<String, Vec<u8>>
     let mut out = BTreeMap::new();
     for (path, inode) in disk.view()
     {
-        if path == RULER_DIR || path.starts_with(&format!("{}/", RULER_DIR)) { continue; }
+        if path == ruler_dir() || path.starts_with(&format!("{}/", ruler_dir())) { continue; }
         out.insert(path, inode.data);
     }
     out
@@ -259,7 +259,7 @@ pub fn user_files(disk : &Disk) -> BTreeMap<String, Vec<u8>>
 
 pub fn cache_files(disk : &Disk) -> Vec<(String, Vec<u8>)>
 {
-    let prefix = format!("{}/cache/", RULER_DIR);
+    let prefix = format!("{}/cache/", ruler_dir());
     disk.view().into_iter().filter(|(p, _)| p.starts_with(&prefix)).map(|(p, i)| (p[prefix.len()..].to_string(), i.data)).collect()
 }
 
@@ -291,7 +291,8 @@ impl World
             two_rule_files : false,
         };
         world.two_rule_files = world.rng.chance(1, 4);
-        for d in ["src", "in", "in/deep", "out", "gen", "gen/sub", "bin", "env"]
+        crate::verif::vsys::set_ruler_dir(match world.rng.below(10) { 0 | 1 => 1, 2 => 2, _ => 0 });
+        for d in ["src", "in", "in/deep", "out", "gen", "gen/sub", "bin", "env", "meta"]
         {
             world.sys.user_mkdirs(d);
         }
@@ -457,7 +458,7 @@ impl World
         self.sys.tick();
         if self.erase_table_before_build
         {
-            self.sys.user_remove(&format!("{}/current_file_states", RULER_DIR));
+            self.sys.user_remove(&format!("{}/current_file_states", ruler_dir()));
         }
         let before = self.sys.disk();
         let eval = model::evaluate(&self.rules, &goal, &user_files(&before));
@@ -475,14 +476,14 @@ impl World
             None => shim::run_controlled(choice.policy.clone(), choice.seed, Some(observer), choice.step_limit, ||
             {
                 build::build(sys, &mut printer, BuildParams::from_all(
-                    RULER_DIR.to_string(), rule_files, None, params_goal))
+                    ruler_dir().to_string(), rule_files, None, params_goal))
             }),
             Some(jitter) =>
             {
                 let (value, free_report) = shim::run_free(choice.seed, jitter, Some(observer), ||
                 {
                     build::build(sys, &mut printer, BuildParams::from_all(
-                        RULER_DIR.to_string(), rule_files_2, None, params_goal))
+                        ruler_dir().to_string(), rule_files_2, None, params_goal))
                 });
                 let mut report = RunReport::default();
                 report.threads = free_report.threads;
@@ -511,13 +512,13 @@ impl World
         {
             None => shim::run_controlled(choice.policy.clone(), choice.seed, None, choice.step_limit, ||
             {
-                build::clean(sys, RULER_DIR, rule_files, params_goal)
+                build::clean(sys, ruler_dir(), rule_files, params_goal)
             }),
             Some(jitter) =>
             {
                 let (value, free_report) = shim::run_free(choice.seed, jitter, None, ||
                 {
-                    build::clean(sys, RULER_DIR, rule_files_2, params_goal)
+                    build::clean(sys, ruler_dir(), rule_files_2, params_goal)
                 });
                 let mut report = RunReport::default();
                 report.threads = free_report.threads;
@@ -633,7 +634,7 @@ impl World
 
 fn is_ruler_path(path : &str) -> bool
 {
-    path == RULER_DIR || path.starts_with(&format!("{}/", RULER_DIR))
+    path == ruler_dir() || path.starts_with(&format!("{}/", ruler_dir()))
 }
 
 /* C07: every cache entry is named after the hash of its own bytes */
@@ -658,7 +659,7 @@ pub fn m_cas(disk : &Disk) -> (Vec<Violation>, usize)
 pub fn m_restore_exact(obs : &Obs) -> Vec<Violation>
 {
     let mut out = vec![];
-    let prefix = format!("{}/cache/", RULER_DIR);
+    let prefix = format!("{}/cache/", ruler_dir());
     // reconstruct bytes of moved files from the before-state plus command writes is not needed: VSys
     // recorded the fnv of the moved bytes; compare against the cache content present before, when known
     let before_cache : BTreeMap<String, Vec<u8>> = cache_files(&obs.before).into_iter().collect();
@@ -905,7 +906,7 @@ pub fn m_status(obs : &Obs) -> (Vec<Violation>, usize)
     let mut judged = 0;
     if obs.kind != "build" { return (out, 0); }
     let completed = match &obs.verdict { Verdict::Ok | Verdict::WorkErrors(_) => true, _ => false };
-    let cache_prefix = format!("{}/cache/", RULER_DIR);
+    let cache_prefix = format!("{}/cache/", ruler_dir());
 
     for (text, path) in obs.print.banners.iter()
     {
